@@ -80,6 +80,26 @@ class MatrixHist : public Engine {
                 pk.kind = "pack";
                 p.ops.push_back(pk);
             }
+            // the packed single-integer form has its own boundaries (4 bits per level)
+            size_t npk = r.range(1, 4);
+            for (size_t i = 0; i < npk; i++) {
+                auto nib = [&]() -> uint64_t {
+                    unsigned level = (unsigned)r.range(1, 8);
+                    uint64_t edge = 1ULL << (4 * level);
+                    switch (r.below(5)) {
+                    case 0: return edge - 1;
+                    case 1: return edge >= (1ULL << 32) ? edge - 1 : edge;
+                    case 2: return edge - 2;
+                    case 3: return r.below(edge);
+                    default: return r.below(16);
+                    }
+                };
+                Op pk;
+                pk.kind = "pack";
+                pk.set("row", nib());
+                pk.set("col", nib());
+                p.ops.push_back(pk);
+            }
         }
         for (size_t i = 0; i < nops; i++) {
             Op op;
@@ -213,13 +233,24 @@ class MatrixHist : public Engine {
                     continue;
                 }
                 if (k == "pack") {
-                    if (rows >= (1ULL << 32) || cols >= (1ULL << 32)) continue;
+                    uint64_t prow = op.has("row") ? op.u("row") : rows, pcol = op.has("col") ? op.u("col") : cols;
+                    if (prow >= (1ULL << 32) || pcol >= (1ULL << 32)) continue;
                     uint64_t packed = 0;
                     varintDimensionPacked pd = VARINT_DIMENSION_PACKED_1;
-                    bool okp = varintDimensionPack(rows, cols, &packed, &pd);
+                    bool okp = varintDimensionPack(prow, pcol, &packed, &pd);
                     size_t r2 = ~(size_t)0, c2 = ~(size_t)0;
                     if (okp) varintDimensionUnpack(&r2, &c2, packed, pd);
                     g_log.u64(packed);
+                    stat("op.pack");
+                    // the announced level must hold both halves: 2 x 4*level bits
+                    bool fits = okp && (unsigned)pd >= 1 && (unsigned)pd <= 8 &&
+                                ((unsigned)pd == 8 || (packed >> (8 * (unsigned)pd)) == 0);
+                    if (!okp || r2 != prow || c2 != pcol || !fits) {
+                        fail("header", "op=pack", "pair (" + std::to_string(prow) + ", " + std::to_string(pcol) + "): " +
+                             std::string(!okp ? "packing was refused" : !fits ? "the packed integer does not fit the announced level " + std::to_string((unsigned)pd) : "packed form decodes to " + std::to_string(r2) + " x " + std::to_string(c2)));
+                        break;
+                    }
+                    continue;
                     if (!okp || r2 != rows || c2 != cols) {
                         fail("header", "op=pack", std::string("packed form ") + (okp ? "decodes to " + std::to_string(r2) + " x " + std::to_string(c2) : "was refused"));
                         break;
